@@ -130,6 +130,7 @@ func c05(c *Check) {
 	ms := c.F(xibcK + "Keeper.RecvPacket")
 	m := msM
 	local := m.X("(client/keeper.(Keeper).GetChainName($0.ClientKeeper, {CC}#0) == {DST})")
+	localOuter := m.X("(client/keeper.(Keeper).GetChainName($0.ClientKeeper, {CTX}) == {DST})") // same read on the message context (nothing is written in between)
 	unknown := m.X("!client/keeper.(Keeper).GetClientState($0.ClientKeeper, {CTX}, {DST})#1")
 	paths := c.PathCounts(ms, func(cs *CallSite) bool { return strings.HasSuffix(cs.Name, "keeper.(Keeper).WriteAcknowledgement") })
 	nLocal, nUnknown, nRelay := 0, 0, 0
@@ -137,7 +138,7 @@ func c05(c *Check) {
 	for _, p := range paths {
 		want := 0
 		switch {
-		case p.Conds[local]:
+		case p.Conds[local] || p.Conds[localOuter]:
 			want = 1
 			nLocal++
 		case p.Conds[unknown]:
